@@ -1,4 +1,9 @@
-/- A structural fact read from /repo/src by the translator (Generated.lean), kept in its own module so that only the properties that rely on it depend on it. -/
+/-
+Structural facts about src/pipe.rs read by the translator (Generated.lean), and the obligations that tie them to the
+hand-written pipe model: every `prod` step of `DesyncModel.Pipe.Model` is ONE critical section of the stream core
+touching exactly the fields listed here; `cons` and `dropLock` likewise.  If a change to pipe.rs splits, merges or
+reorders these sections, or moves a field access from one to another, the `decide` below fails and names what moved.
+-/
 import DesyncModel.Types
 import DesyncModel.Generated
 
@@ -6,5 +11,34 @@ namespace Desync
 open Gen
 
 theorem pipe_default_depth_pos : 0 < pipeDefaultDepth := by decide
+
+/-- `PipeContext` holds its target weakly: `pipe_in` never keeps the Desync alive (C11), and a dropped target is
+noticed by `PipeContext::poll` (`ctxDead`) -/
+theorem pipe_target_weak : pipeTargetWeak = true := by decide
+
+/-- The producing poll function of `pipe`: six critical sections, in source order —
+`checkFull` (full test, back-pressure registration and the read of `closed` in ONE section), `closedNotify`,
+`clearNsc`, `regNsc` (re-check of `closed` and registration in ONE section), `closeOut`, `push`. -/
+theorem pipe_producer_sections :
+    pipeProducerSections =
+      [["pending", "max_pipe_depth", "backpressure_release_notify", "closed"],   -- PJ.checkFull
+       ["notify"],                                                                 -- PJ.closedNotify
+       ["notify_stream_closed"],                                                   -- PJ.clearNsc
+       ["closed", "notify_stream_closed"],                                         -- PJ.regNsc
+       ["closed", "notify"],                                                       -- PJ.closeOut
+       ["pending", "notify"]] := by decide                                         -- PJ.push
+
+/-- `Drop for PipeStream`: one section that flushes, closes and takes `notify_stream_closed`; `on_drop` goes to the
+disposal queue (`Label.dropLock`, `Label.dispose`) -/
+theorem pipe_drop_section : pipeDropSections = [["pending", "closed", "notify_stream_closed"]] ∧ pipeDropQueuesOnDrop = true := by decide
+
+/-- `PipeStream::poll_next`: one section; an item → return it and take the back-pressure waker; closed → end;
+otherwise take the back-pressure waker and store the consumer's waker (`Label.cons`) -/
+theorem pipe_cons_section :
+    pipeConsSections = [["pending", "backpressure_release_notify", "closed", "backpressure_release_notify", "notify"]]
+    ∧ pipeConsBranches = [("item", "item", true, false), ("closed", "fin", false, false), ("empty", "pending", true, true)] := by decide
+
+/-- `PipeWaker` is one-shot (`Label.wakeK` clears `wakers[k]`) -/
+theorem pipe_waker_one_shot : pipeWakerOneShot = true := by decide
 
 end Desync
